@@ -363,20 +363,27 @@ PLAYBACK_RE = re.compile(r"Concrete playback unit test for `([^`]*)`:\s*```\s*(.
 
 
 def concrete_playback_batch(scratch, hs, cap, workdir):
-    """One Kani run (-j) asking for the concrete values of every counterexample.
+    """Ask Kani for the concrete values of every counterexample (`--concrete-playback` is
+    incompatible with -j, so one Kani process per harness, up to 4 at a time; the build is shared).
     Returns {harness name: unit test text}."""
-    logpath = os.path.join(workdir, "playback.log")
-    names = [h.name for h in hs]
-    _rc, text, _t, _k = run_kani(scratch, names, cap, min(4, len(names)), logpath,
-                                 extra=["-Z", "concrete-playback", "--concrete-playback", "print"],
-                                 rss_cap_kb=14 * 1024 * 1024,
-                                 tail=["--cbmc-args", "--slice-formula"])
+    from concurrent.futures import ThreadPoolExecutor
     out = {}
-    text = re.sub(r"^Thread \d+: ?", "", text, flags=re.M)
-    for m in PLAYBACK_RE.finditer(text):
-        short = m.group(1).split("::")[-1]
-        if short in names and short not in out:
-            out[short] = m.group(2).strip() + "\n"
+
+    def one(h):
+        logpath = os.path.join(workdir, "playback_%s.log" % h.name)
+        _rc, text, _t, _k = run_kani(scratch, [h.name], cap, 1, logpath,
+                                     extra=["-Z", "concrete-playback", "--concrete-playback", "print"],
+                                     rss_cap_kb=14 * 1024 * 1024,
+                                     tail=["--cbmc-args", "--slice-formula"])
+        for m in PLAYBACK_RE.finditer(text):
+            if m.group(1).split("::")[-1] == h.name:
+                return h.name, m.group(2).strip() + "\n"
+        return h.name, None
+
+    with ThreadPoolExecutor(max_workers=4) as ex:
+        for name, test in ex.map(one, hs):
+            if test:
+                out[name] = test
     return out
 
 
@@ -762,7 +769,9 @@ def main(argv):
 def do_replay(prop, path):
     rec = json.load(open(path))
     if rec.get("engine") == "S":
+        sys.path.insert(0, os.path.join(VERIF, "lib"))
         import engines as _e
+        rec["_path"] = os.path.abspath(path)
         return _e.replay(rec)
     reg = load_registry()
     h = [x for x in reg if x.name == rec["harness"]]
